@@ -7,12 +7,20 @@ w=/tmp/seed/$id
 cd $w || exit 2
 cp -r seeded /tmp/seed/$id.deliver
 git checkout -q -- . 2>/dev/null
+# bring the scratch worktree to /repo's current HEAD (fix: commits made since the sub-agent started)
+git checkout -q --detach $(git -C /repo rev-parse HEAD) 2>/dev/null
 git status --short | grep -v '^??' | head -3
 rm -rf _b
 echo "--- unmodified tree: demo must pass"
 ( cd /tmp/seed/$id.deliver && cp -r . $w/seeded/ 2>/dev/null; cd $w/seeded && sh ./demo.sh >/tmp/seed/$id.demo0.log 2>&1 ); r0=$?
 echo "demo exit (unmodified) = $r0"
-git apply seeded/patch.diff || { echo "PATCH DOES NOT APPLY"; exit 3; }
+if ! git apply seeded/patch.diff 2>/dev/null; then
+  git apply --3way seeded/patch.diff >/dev/null 2>&1 || { echo "PATCH DOES NOT APPLY"; exit 3; }
+  git reset -q
+  cp /tmp/seed/$id.deliver/patch.diff /tmp/seed/$id.deliver/patch.pre-rebase.diff
+  git diff -- . ':!seeded' > /tmp/seed/$id.deliver/patch.diff
+  echo "patch rebased onto the current HEAD (3-way)"
+fi
 rm -rf _b
 cmake -G Ninja -S . -B _b >/dev/null 2>&1 && cmake --build _b >/tmp/seed/$id.build.log 2>&1 || { echo "BUILD FAILS"; tail -5 /tmp/seed/$id.build.log; exit 4; }
 _b/w2c2/w2c2_test > /tmp/seed/$id.t1.log 2>&1; t1=$?; _b/wasi/w2c2wasi_test > /tmp/seed/$id.t2.log 2>&1; t2=$?
